@@ -216,4 +216,53 @@ LawTextRoundTrip(t) ==
   /\ ImplScanDate(t) = [ok |-> Denote(t)]
   /\ IntFormConstrained(ImplDisplay(Denote(t)))
   /\ ImplScanInt(ImplDisplay(Denote(t))) = [ok |-> Denote(t)]
+
+----------------------------------------------------------------------------
+(* Instants.  A point in time is an integer number of seconds relative to   *)
+(* the epoch and may lie before it (negative).  The serial made from an     *)
+(* instant is the instant modulo 2^BITS (Denote; % is the mathematical      *)
+(* modulus, the second before the epoch is the serial 2^BITS - 1), so the   *)
+(* laws LawDenoteOrder / LawDenotePlace / LawDenoteAdd hold on either side  *)
+(* of every multiple of 2^BITS, the multiple 0 (the epoch) included: the    *)
+(* passing of n seconds is the serial's addition of n.  Only the *text*     *)
+(* forms above are confined to instants at or after the epoch.              *)
+TextFormConstrained(t) == t >= 0
+
+(* Transcription of `impl From<jiff::Timestamp> for Serial`                 *)
+(* (src/base/serial.rs):  Self(value.as_second() as u32)                    *)
+(* as_second() is a signed 64-bit count; `as u32` keeps the low 32 bits of  *)
+(* its two's complement representation.  WIDE stands for 2^64 (any multiple *)
+(* of 2^BITS above the instants in use; this part needs BITS <= 15).        *)
+WIDE == M * M
+TwosComplement(t) == IF t >= 0 THEN t ELSE t + WIDE
+ImplOfInstant(t) == TwosComplement(t) % M
+LawInstantImpl(t) == (t > -WIDE) => (ImplOfInstant(t) \in Val /\ ImplOfInstant(t) = Denote(t))
+
+----------------------------------------------------------------------------
+(* Windows.  A half-open window [lo, hi) of serials / times, as used for    *)
+(* validity periods ("made between one hour ago and five minutes from       *)
+(* now").  In the library it is a `Range<Serial>` and membership is         *)
+(* `Range::contains`, i.e. lo <= x /\ x < hi through the partial order.     *)
+InWindow(lo, hi, x) == Cmp(lo, x) \in {"LT", "EQ"} /\ Cmp(x, hi) = "LT"
+\* new::edns::Cookie::verify: `validity.contains(&self.timestamp)` with the
+\* partial order of new::base::Serial
+ImplInWindow(lo, hi, x) == ImplCmpNew(lo, x) \in {"LT", "EQ"} /\ ImplCmpNew(x, hi) = "LT"
+
+\* the window is well formed when its end is not before its start, i.e. its
+\* width is less than half a cycle; the property says nothing about others
+WindowWidth(lo, hi) == (hi - lo) % M
+WellFormed(lo, hi) == WindowWidth(lo, hi) < H
+\* declarative meaning: x lies fewer than `width` steps after lo -- wherever
+\* in the number space the window lies, also when lo > hi as integers
+WindowMeaning(lo, hi, x) == (x - lo) % M < WindowWidth(lo, hi)
+
+LawWindowMeaning(lo, hi, x) ==
+  WellFormed(lo, hi) => (InWindow(lo, hi, x) <=> WindowMeaning(lo, hi, x))
+\* law 4 of the property for the ternary decision
+LawWindowShift(lo, hi, x, n) ==
+  InWindow(Add(lo, n), Add(hi, n), Add(x, n)) = InWindow(lo, hi, x)
+\* what a verifier has to answer
+WindowDecision(lo, hi, x) ==
+  IF ~WellFormed(lo, hi) THEN "any"
+  ELSE IF InWindow(lo, hi, x) THEN "accept" ELSE "reject"
 =============================================================================
